@@ -7820,3 +7820,108 @@ func ruleCtxPerGoroutine(prop string) ruleFn {
 		}
 	}
 }
+
+// CACHE-GEN (C12, C01, C10): the parsed-rule cache is invalidated where the facts change.
+func ruleCacheGen(prop string) ruleFn {
+	return func(w *World, r *Report) {
+		r.Rule("CACHE-GEN", "premise: the states keep a count of the invalidations of the parsed-rule cache (`cacheGen`), which FindCachedRules notes before it reads the rules out of the state and compares before it caches what it parsed (checked: the store into the cache is control-dependent on a comparison with the count).  That protocol keeps an event that overlaps the replacement of a rule from caching the replaced rule for good — provided the count changes with the state's write lock held, in the critical section in which the fact changes: an invalidation before that section (LinearState.Add once dropped the entry first and replaced the fact last) can be over before the event notes the count, and the event then reads the old rule and caches it", 2)
+		n := 0
+		for _, name := range []string{"IndexedState", "LinearState"} {
+			nt := w.Named("core", name)
+			owner := "core." + name
+			has := false
+			if st := structOf(nt); st != nil {
+				for k := 0; k < st.NumFields(); k++ {
+					if st.Field(k).Name() == "cacheGen" {
+						has = true
+					}
+				}
+			}
+			key := "type=" + owner
+			if !has {
+				r.exempt("CACHE-GEN", key, "", "premise fails: no invalidation count; the cache is then guarded by the state's lock (LOCKSET) or not at all")
+				continue
+			}
+			n++
+			// (1) the publication hangs on the count
+			pubOK := false
+			for _, fn := range w.MethodsOf(nt) {
+				allInstrs(fn, func(in ssa.Instruction) {
+					mu, ok := in.(*ssa.MapUpdate)
+					if !ok || !isFieldLoad(mu.Map, owner, "cachedRules") {
+						return
+					}
+					if controlDependsOn(fn, in, func(v ssa.Value) bool { return isFieldLoad(v, owner, "cacheGen") }) {
+						pubOK = true
+					} else {
+						pubOK = false
+						r.violation("CACHE-GEN", key+" publish", w.PosOf(in), "a parsed rule is put into the cache without a look at the invalidation count")
+					}
+				})
+			}
+			if pubOK {
+				r.ok("CACHE-GEN", key+" publish", "", "a parsed rule is cached only if nothing was invalidated since the event noted the count")
+			}
+			// (2) where a fact is set (inserted or replaced), the invalidation is in the same critical section: no
+			// operation on the state's lock lies between the two.  (LOCKSET decides that the set itself is made with
+			// the write lock held.  Removals need nothing: an entry for an id that has no fact is never looked at.)
+			factField := "IdToFact"
+			if name == "LinearState" {
+				factField = "Facts"
+			}
+			e := newLocksetEngine(w, nil)
+			lock := owner + ".RWMutex"
+			isLockOp := func(x ssa.Instruction) bool { return e.acquires(x, lock) || e.releases(x, lock) }
+			invalidates := func(g *ssa.Function) bool {
+				found := false
+				if g == nil {
+					return false
+				}
+				allInstrs(g, func(in ssa.Instruction) {
+					if _, ok := storesToField(in, owner, "cacheGen"); ok {
+						found = true
+					}
+				})
+				return found
+			}
+			sets := 0
+			for _, fn := range w.MethodsOf(nt) {
+				if fn.Name() == "Load" || isTestFile(w, fn) {
+					continue
+				}
+				allInstrs(fn, func(in ssa.Instruction) {
+					mu, ok := in.(*ssa.MapUpdate)
+					if !ok || !isFieldLoad(mu.Map, owner, factField) {
+						return
+					}
+					sets++
+					k2 := key + " set in=" + fname(fn)
+					same := false
+					allInstrs(fn, func(x ssa.Instruction) {
+						c := callOf(x)
+						if c == nil || !invalidates(c.StaticCallee()) {
+							return
+						}
+						if reachable(fn, in, x) && between(fn, in, x, isLockOp) == nil {
+							same = true
+						}
+						if reachable(fn, x, in) && between(fn, x, in, isLockOp) == nil {
+							same = true
+						}
+					})
+					if same {
+						r.ok("CACHE-GEN", k2, w.PosOf(in), "the cache is invalidated in the critical section in which the fact is set")
+					} else {
+						r.violation("CACHE-GEN", k2, w.PosOf(in), "the fact is set here, and the parsed-rule cache is not invalidated in the same critical section: an event can note the invalidation count after the invalidation, still read the old rule, and cache it for good")
+					}
+				})
+			}
+			if sets == 0 {
+				r.exempt("CACHE-GEN", key+" set", "", "no method sets an entry of the fact map: shape not recognised, not decided")
+			}
+		}
+		if n == 0 {
+			r.Notes = append(r.Notes, "CACHE-GEN: no state keeps an invalidation count")
+		}
+	}
+}
